@@ -422,7 +422,8 @@ def _starts_with_minus(term: Any, sql: str) -> bool:
         value = term.value
         if isinstance(value, Term):
             return _starts_with_minus(value, "")
-        return isinstance(value, numbers.Number) and not isinstance(value, bool) and value < 0
+        # the sign as rendered: str(-0.0) starts with a minus although -0.0 < 0 is false
+        return isinstance(value, numbers.Number) and not isinstance(value, bool) and str(value).startswith("-")
     if isinstance(term, ArithmeticExpression):
         left_op = getattr(term.left, "operator", None)
         return not term.left_needs_parens(term.operator, left_op) and _starts_with_minus(term.left, "")
